@@ -112,7 +112,10 @@ EXPLANATION = (
     "witness folds is performed in the declared type of the member it hits, bit-field widths included (R11); the declared "
     "types of num_items and cur_bucket can represent 0..ARRAY_SIZE(item) and 0..ARRAY_SIZE(bucket)-1 (R13); every function whose "
     "address the scheduler compares call-backs with (the end-of-set marker) has external linkage, so the marker the sets of "
-    "other translation units store is the compared object (R14).")
+    "other translation units store is the compared object (R14); tdma_sched_execute / tdma_sched_advance, evaluated on a "
+    "concrete ring with call-back models over execute/advance witness histories, run every item exactly once in the execute "
+    "call of its frame -- also an item a running call-back schedules with offset 0 into the frame being executed -- and leave "
+    "the executed frame empty (R15).")
 ASSUMPTIONS = [
     "type-based aliasing: stores through int*/non-scheduler lvalues do not modify scheduler fields; "
     "distinct field names of the scheduler structs do not overlap",
@@ -3304,7 +3307,8 @@ class CEval:
     conversions -- clang spells them all out), pointers to array elements / struct members / locals, arrays, structs,
     if / for / while / do / break / continue / return, ?:, && ||, ++ --, compound assignment, calls of functions that
     have a body in the translation unit (evaluated recursively) and of the console output functions (no effect).
-    Everything else -- switch, goto, unknown callees, use of an uninitialised value in arithmetic or a branch, signed
+    goto to a label that is a direct statement of an enclosing block.  Everything else -- switch, goto into a nested
+    statement, unknown callees, use of an uninitialised value in arithmetic or a branch, signed
     overflow, out-of-bounds access, step limit -- raises NoVerdict.  Never executes anything: it folds the AST."""
 
     def __init__(self, tu, max_steps=100000, max_depth=6):
@@ -3319,6 +3323,7 @@ class CEval:
         self._bits = {}
         self.lazy_globals = False         # True: file-scope objects defined in the TU are created (with their initialiser) on first use
         self.externs = {}                 # name -> callable(args): models of functions without a body in the TU
+        self.indirect = None              # callable(("fn", name), args): model of a call through a function pointer
 
     # -- types / objects
     def itype(self, tdict):
@@ -3383,20 +3388,46 @@ class CEval:
             r = self.stmt(self.tu.body(f), frame)
         finally:
             self.depth -= 1
+        if isinstance(r, tuple) and r[0] == "goto":
+            raise NoVerdict("goto into a nested statement")
         if isinstance(r, tuple):
             return r[1]
         return UNDEF
 
-    # -- statements: -> None | "break" | "continue" | ("ret", value)
+    @staticmethod
+    def labelled(x, decl_id):
+        while kind(x) == "LabelStmt":
+            if x.get("declId") == decl_id:
+                return True
+            x = kids(x)[-1] if kids(x) else {}
+        return False
+
+    # -- statements: -> None | "break" | "continue" | ("ret", value) | ("goto", id of the label's declaration)
     def stmt(self, s, fr):
         self.tick()
         k = kind(s)
         if k == "CompoundStmt":
-            for x in kids(s):
-                r = self.stmt(x, fr)
+            xs = kids(s)
+            i = 0
+            while i < len(xs):
+                r = self.stmt(xs[i], fr)
+                if isinstance(r, tuple) and r[0] == "goto":
+                    # the jump ends in the innermost enclosing block that holds the label as a direct statement
+                    # (a jump into a nested block / loop body is outside the vocabulary: it leaves call())
+                    j = [j for j, x in enumerate(xs) if self.labelled(x, r[1])]
+                    if not j:
+                        return r
+                    self.tick()
+                    i = j[0]
+                    continue
                 if r is not None:
                     return r
+                i += 1
             return None
+        if k == "GotoStmt" and s.get("targetLabelDeclId"):
+            return ("goto", s["targetLabelDeclId"])
+        if k == "LabelStmt" and s.get("declId"):
+            return self.stmt(kids(s)[-1], fr)
         if k == "DeclStmt":
             for d in kids(s):
                 if kind(d) == "VarDecl":
@@ -3926,7 +3957,13 @@ class CEval:
         if k == "CallExpr":
             callee = strip(ks[0])
             if not (kind(callee) == "DeclRefExpr" and callee.get("referencedDecl", {}).get("kind") == "FunctionDecl"):
-                raise NoVerdict("indirect call")
+                # call through a function pointer value: p(...) and (*p)(...) are the same call
+                while kind(callee) == "UnaryOperator" and callee.get("opcode") == "*":
+                    callee = strip(kids(callee)[0])
+                fv = self.rv(callee, fr) if self.indirect is not None else None
+                if not (isinstance(fv, tuple) and fv[:1] == ("fn",)):
+                    raise NoVerdict("indirect call")
+                return self.indirect(fv, [self.rv(x, fr) for x in ks[1:]])
             name = callee["referencedDecl"].get("name")
             if name in MEM_FUNCS and name not in self.tu.functions or (
                     name in MEM_FUNCS and not any(kind(c) == "CompoundStmt" for c in kids(self.tu.functions[name]))):
@@ -5325,6 +5362,164 @@ def r11_set_capacity(a):
          a.tu.func("tdma_schedule"))
 
 
+# ---------------------------------------------------------------- R15 execute / advance histories, on-the-fly scheduling
+
+def r15_execute_histories(a):
+    """C08.R15 -- decides, on witness histories, the clauses "an item scheduled N frames ahead is executed exactly once,
+    exactly N frame advances later, with the parameters it was scheduled with", "nothing runs in a frame it was not
+    scheduled for" and "an executed frame is left empty" for the executing side, INCLUDING N = 0 issued while the frame
+    runs: the quantifier ranges over all sequences of tdma_schedule / advance / execute operations and all offsets
+    0..ring-1, and tdma_schedule(0, ...) from a running call-back targets the bucket being executed.
+    tdma_sched_execute() / tdma_sched_advance() are evaluated (CEval: a fold of the clang AST on one concrete ring, the
+    helpers -- whatever they return -- followed; nothing is executed).  An item's call-back is a model that records the
+    call, issues -- the first time it is invoked -- the tdma_schedule() calls the witness gives it (evaluated on the same
+    ring state) and reports success.
+    Witness classes: (pre) every fill level 0..capacity of the current frame with distinct descending priorities next
+    to items of other frames, two rounds of execute/advance; (fly0) for every fill level below the capacity and every
+    position j, the j-th item's call-back schedules a further item -- with a priority below / above all others -- for
+    offset 0, and that item a third one while there is room; (flyk) a call-back schedules an item 1 and ring-1 frames
+    ahead, followed by that many advance/execute rounds.  Judged is the outcome only: which call-backs were invoked in
+    which execute call, how often, with which arguments (order: only among items stored before the call began, whose
+    priorities are distinct), the fill count of the executed bucket afterwards, where the pending items are.  How the
+    loop is bounded, whether the order is recomputed, which helper returns what is irrelevant.  A tdma_schedule() from
+    a call-back that is refused although its frame has room, or a construct outside the evaluator's vocabulary, is no
+    verdict."""
+    R = "C08.R15"
+    ring, cap = a.NFR, a.NCB
+    name = "tdma_sched_execute"
+    for fname in (name, "tdma_sched_advance"):
+        if a.tu.fparams(a.tu.func(fname)):
+            raise AnalysisError("%s(): expected no parameters -- unclassifiable" % fname)
+    if ring < 4 or cap < 3:
+        raise AnalysisError("ring of %d frames x %d items is too small for the witness histories" % (ring, cap))
+    points = sorted({0, ring // 2, ring - 1})
+
+    def fold():
+        W = SchedWorld(a)
+        ev = W.ev
+        log, plan = [], {}
+
+        def indirect(fv, args):
+            if fv[1] in a.tu.functions or len(args) != 3:
+                raise NoVerdict("call-back %s invoked with %d arguments" % (fv[1], len(args)))
+            log.append((fv, tuple(args)))
+            for (off, cb, par, prio) in plan.pop(fv, ()):          # a call-back that schedules on its first invocation only
+                rc = ev.call("tdma_schedule", [off, cb, par[0], par[1], par[2], prio])
+                if not isinstance(rc, int) or rc < 0:
+                    raise NoVerdict("tdma_schedule(%d, ...) from a running call-back returns %s although its frame has room" % (off, rc))
+            return 0
+        ev.indirect = indirect
+
+        def history(cur, pre, flies, frames):
+            """pre: {offset: [prio, ...]} items stored before the first round; flies: {(offset, k): (offset', prio, more)}
+            what the call-back of the k-th item stored for `offset` schedules (more: what that item's call-back
+            schedules in turn); -> None | text of the first difference from the stated behaviour."""
+            W.reset(cur, {})
+            plan.clear()
+            due = {}                       # call-back -> (round it must run in, parameters, stored before the call?, prio)
+            label = {}
+            for off, prios in sorted(pre.items()):
+                B = W.sched["bucket"][(cur + off) % ring]
+                for k, prio in enumerate(prios):
+                    cb = ("fn", "<item #%d stored for frame offset %d, prio %d>" % (k, off, prio))
+                    par = (k + 1, off + 100, 1000 + 10 * off + k)
+                    it = B["item"][k]
+                    it["cb"], it["p1"], it["p2"], it["p3"], it["prio"] = cb, par[0], par[1], par[2], prio
+                    due[cb] = (off, par, True, prio)
+                    label[(off, k)] = cb
+                ev.put((B, "num_items"), len(prios))
+
+            def chain(owner, at, spec, depth):
+                off2, prio, more = spec
+                cb = ("fn", "<item scheduled for frame offset %d (prio %d) by the running call-back of %s>" % (
+                    off2, prio, owner[1].strip("<>").split(",")[0]))
+                par = (200 + depth, 50 + off2, 7000 + depth)
+                plan.setdefault(owner, []).append((off2, cb, par, prio))
+                due[cb] = (at + off2, par, False, prio)
+                if more:
+                    chain(cb, at + off2, more, depth + 1)
+            for (off, k), spec in sorted(flies.items()):
+                chain(label[(off, k)], off, spec, 0)
+            for t in range(frames):
+                del log[:]
+                now = (cur + t) % ring
+                if W.sched["cur_bucket"] != now:
+                    return "after %d advance(s) from cur_bucket=%d the ring is at bucket %s" % (t, cur, W.sched["cur_bucket"])
+                rc = W.call(name, [])
+                if W.oob(rc):
+                    return W.oob(rc)
+                ran = [cb for (cb, _a) in log]
+                for cb, (at, par, stored, _p) in sorted(due.items(), key=lambda x: (x[1][0], x[0])):
+                    n = ran.count(cb)
+                    what = cb[1].strip("<>")
+                    if at == t and n != 1:
+                        return "%s is %s in execute round %d (wanted: exactly once; run there: %s)" % (
+                            what, "never run" if not n else "run %d times" % n, t, ", ".join(x[1].strip("<>").split(",")[0] for x in ran) or "nothing")
+                    if at != t and n:
+                        return "%s, due in round %d, is run in execute round %d" % (what, at, t)
+                    if n and [x for (c, x) in log if c == cb] != [par]:
+                        return "%s is invoked with %s (wanted: %s)" % (what, [x for (c, x) in log if c == cb][0], par)
+                if any(cb not in due for cb in ran):
+                    return "execute round %d invokes %s" % (t, [cb for cb in ran if cb not in due][0][1])
+                order = [due[cb][3] for cb in ran if due[cb][2]]
+                if order != sorted(order):
+                    return "the items stored for the frame run in the priority order %s" % order
+                n = W.sched["bucket"][now]["num_items"]
+                if n != 0:
+                    return "bucket %d is left with num_items = %s after it was executed (round %d)" % (now, n, t)
+                if t + 1 < frames:
+                    W.call("tdma_sched_advance", [])
+            for cb, (at, par, _s, _p) in sorted(due.items()):
+                if at >= frames and [b for (b, _k) in W.where(cb)] != [(cur + at) % ring]:
+                    return "%s is no longer pending in bucket %d after %d round(s)" % (cb[1].strip("<>"), (cur + at) % ring, frames)
+            return None
+
+        bad = {"pre": None, "fly0": None, "flyk": None}
+        runs = 0
+
+        def one(cls, cur, pre, flies, frames, text):
+            t = history(cur, pre, flies, frames)
+            if t and bad[cls] is None:
+                bad[cls] = "at cur_bucket=%d, %s: %s" % (cur, text, t)
+            return 1
+        for cur in points:
+            for n in range(cap + 1):
+                prios = [3 * (n - k) for k in range(n)]
+                runs += one("pre", cur, {0: prios, 1: [5, -5], ring - 1: [0]}, {}, 2,
+                            "%d item(s) stored for the current frame, 2 for the next, 1 for offset %d" % (n, ring - 1))
+            for n in range(1, cap):
+                prios = [3 * (n - k) for k in range(n)]
+                for j in range(n):
+                    for prio in (-7, 3 * n + 7):
+                        more = (0, prio, None) if n + 2 <= cap else None
+                        runs += one("fly0", cur, {0: prios, 1: [1]}, {(0, j): (0, prio, more)}, 1,
+                                    "%d item(s) stored for the current frame, the call-back of item #%d schedules one more for "
+                                    "offset 0%s" % (n, j, " (and that one a third)" if more else ""))
+            for n in (1, cap):
+                prios = [3 * (n - k) for k in range(n)]
+                for j in sorted({0, n - 1}):
+                    for k in (1, ring - 1):
+                        runs += one("flyk", cur, {0: prios}, {(0, j): (k, 2, None)}, k + 1,
+                                    "%d item(s) stored for the current frame, the call-back of item #%d schedules one for "
+                                    "offset %d" % (n, j, k))
+        return runs, bad
+    runs, bad = fold_stage("tdma_sched_execute / tdma_sched_advance", fold)
+    a.L.floor(R, "execute / advance histories evaluated on a concrete ring", runs, len(points) * (cap + 1))
+    f = a.tu.func(name)
+    want = "as scheduled, in all evaluated histories"
+    a.ob(R, name, "tdma_sched_execute(): every item stored for the current frame is run exactly once, with its own parameters, "
+         "in ascending priority order; items of other frames are not run and stay scheduled for their frame; the executed "
+         "frame is left empty (evaluated for every fill level 0..%d, two execute/advance rounds)" % cap,
+         want, bad["pre"] or want, bad["pre"] is None, f)
+    a.ob(R, name, "tdma_sched_execute(): an item that a running call-back schedules with frame offset 0 (into the frame being "
+         "executed) is run exactly once in that same execute call, every stored item still runs once, and the frame is left "
+         "empty (evaluated for every fill level below the capacity x every scheduling position)",
+         want, bad["fly0"] or want, bad["fly0"] is None, f)
+    a.ob(R, name, "tdma_sched_execute(): an item that a running call-back schedules k frames ahead is not run in the executing "
+         "frame and is run exactly once, k advances later (evaluated for k = 1 and k = %d)" % (ring - 1),
+         want, bad["flyk"] or want, bad["flyk"] is None, f)
+
+
 # ---------------------------------------------------------------- R13 the counters' types hold their documented range
 
 def r13_counter_types(a):
@@ -5791,6 +5986,7 @@ def run(L, tier):
     L.stage(r11_set_capacity, a)
     L.stage(r12_gsmtime_feeder, a)
     L.stage(r13_counter_types, a)
+    L.stage(r15_execute_histories, a)
     if a.folds:
         L.structural("C08.R2/R3: ring indices outside the normal form (cur_bucket + x) mod %d are that value for every "
                      "ring position and every offset (exhaustive fold of the finite domain)" % a.NFR, ring_proofs, a)
